@@ -80,6 +80,7 @@ pub fn canonical_plan(n_htlcs: usize) -> impl FnOnce(&mut Rng) -> Plan {
                 metadata,
                 raw_payload_hex: None,
                 label,
+                gate: Gate::None,
             });
         }
         Plan { cfg, local_sk, local_pk, hashes, htlcs }
@@ -121,7 +122,7 @@ pub fn scenarios(thorough: bool) -> Vec<Scenario> {
 }
 
 fn run_scn(seed: u64, sc: &Scenario, script: Script) -> RunResult {
-    run_one(RunOpts { seed, profile: Profile::Crashy, thorough: false, log_events: false, script: Some(script), plan_override: Some(Box::new(canonical_plan(sc.n_htlcs))) })
+    run_one(RunOpts { seed, profile: Profile::Crashy, thorough: false, log_events: false, script: Some(script), plan_override: Some(Box::new(canonical_plan(sc.n_htlcs))), target: None })
 }
 
 pub struct EnumResult {
@@ -238,7 +239,7 @@ pub fn replay_item(thorough: bool, idx: usize) -> Option<RunResult> {
             script.crash_at_step = crash;
             script.fault_at_write = fault;
             eprintln!("scenario {si}: {:?}", script);
-            return Some(run_one(RunOpts { seed: 1000 + si as u64, profile: Profile::Crashy, thorough: false, log_events: true, script: Some(script), plan_override: Some(Box::new(canonical_plan(sc.n_htlcs))) }));
+            return Some(run_one(RunOpts { seed: 1000 + si as u64, profile: Profile::Crashy, thorough: false, log_events: true, script: Some(script), plan_override: Some(Box::new(canonical_plan(sc.n_htlcs))), target: None }));
         }
         i += items.len();
     }
